@@ -579,3 +579,83 @@ def demoNd : Node := { children := [stmtAcc { ees := [], classes := [] } .cont] 
 def demoFr : Fr := (({} : Fr).set "prev" (.inst 1)).set "child" (.child 0)
 
 end Pyx.PbShape
+
+/-! ### round 2: helpers as calls, statement and value handlers -/
+namespace Pyx.PbShape
+open Pyx.Prebuild Pyx.Prebuild.Flat Pyx.Gen.PbShape
+
+theorem act_smt_fuel (fc : FCtx) (nd : Node) (g : G) (n : Nat) (hb : BlkOK g.st) :
+    callFn (mkEnv fc nd) (n + 12) act_smt [.node] [] g
+      = some (.inst (newSmt none g.st).1, { g with st := (newSmt none g.st).2 }) := by
+  obtain ⟨⟨pop, scopes, ok⟩, lval, tys⟩ := g
+  unfold BlkOK at hb
+  simp only at hb
+  cases hc : curBlk scopes with
+  | none =>
+    simp [callFn, act_smt, mkEnv, bindParams, exec, evalE, evalA, evalKw, symtabCall, hc, Fr.set, Fr.get, blankRow, St.new,
+      gfail, newSmt, St.guard, St.fail, curBlkD, List.lookup]
+  | some b =>
+    obtain ⟨o, ho⟩ := hb b hc
+    have hlt : b < pop.length := by
+      rcases Nat.lt_or_ge b pop.length with h | h
+      · exact h
+      · simp [List.getElem?_eq_none h] at ho
+    simp [callFn, act_smt, mkEnv, bindParams, exec, evalE, evalA, evalKw, symtabCall, hc, Fr.set, Fr.get, blankRow, St.new,
+      gfail, newSmt, St.guard, St.fail, curBlkD, List.lookup, relateV, linkFrom, ho, List.getElem?_append_left hlt,
+      setRef, partnerOk, linkKey, setElem]
+
+/-- a call of a method of the generated table that is no atom -/
+theorem evalE_call (E : Env) (f : Nat) (g : G) (fr : Fr) (fn : String) (args : List A) (kw : List (String × A)) (star : Bool)
+    (fn' : Fn) (ha : atomCall E g fn (args.map (evalA E g fr)) = none) (hf : E.fns.find? (fun x => x.name == fn) = some fn') :
+    evalE E (f + 1) g fr (.call fn args kw star)
+      = callFn E f fn' (args.map (evalA E g fr)) (evalKw E g fr kw ++ (if star then fr.kwargs else [])) g := by
+  simp [evalE, callFn, ha, hf]
+
+theorem find_act_smt (fc : FCtx) (nd : Node) : (mkEnv fc nd).fns.find? (fun x => x.name == "act_smt") = some act_smt := by
+  rfl
+
+theorem call_act_smt (fc : FCtx) (nd : Node) (g : G) (fr : Fr) (f : Nat) (hf : 13 ≤ f) (hb : BlkOK g.st) :
+    evalE (mkEnv fc nd) f g fr (.call "act_smt" [A.node []] [] false)
+      = some (.inst (newSmt none g.st).1, { g with st := (newSmt none g.st).2 }) := by
+  obtain ⟨n, rfl⟩ := Nat.exists_eq_add_of_le' hf
+  rw [evalE_call (mkEnv fc nd) (n + 12) g fr "act_smt" _ _ _ act_smt (by simp [atomCall]) (find_act_smt fc nd)]
+  simpa [evalA, evalKw] using act_smt_fuel fc nd g n hb
+
+theorem break_eq (fc : FCtx) (nd : Node) (g : G) (n : Nat) (hb : BlkOK g.st) :
+    callFn (mkEnv fc nd) (n + 20) accept_BreakNode [.node] [] g
+      = some (.inst (buildStmt fc none .brk g.st).1, { g with st := (buildStmt fc none .brk g.st).2 }) := by
+  simp [callFn, accept_BreakNode, bindParams, exec, ↓call_act_smt, hb, evalE, evalA, evalKw, Fr.set, Fr.get, List.lookup,
+    blankRow, St.new, relateV, linkFrom, newSmt, setRef, partnerOk, linkKey, buildStmt]
+
+@[simp] theorem mkEnv_nd (fc : FCtx) (nd : Node) : (mkEnv fc nd).nd = nd := rfl
+@[simp] theorem mkEnv_fc (fc : FCtx) (nd : Node) : (mkEnv fc nd).fc = fc := rfl
+
+theorem continue_eq (fc : FCtx) (nd : Node) (g : G) (n : Nat) (hb : BlkOK g.st) :
+    callFn (mkEnv fc nd) (n + 20) accept_ContinueNode [.node] [] g
+      = some (.inst (buildStmt fc none .cont g.st).1, { g with st := (buildStmt fc none .cont g.st).2 }) := by
+  simp [callFn, accept_ContinueNode, bindParams, exec, ↓call_act_smt, hb, evalE, evalA, evalKw, Fr.set, Fr.get, List.lookup,
+    blankRow, St.new, relateV, linkFrom, newSmt, setRef, partnerOk, linkKey, buildStmt]
+
+theorem control_eq (fc : FCtx) (nd : Node) (g : G) (n : Nat) (hb : BlkOK g.st) :
+    callFn (mkEnv fc nd) (n + 20) accept_ControlNode [.node] [] g
+      = some (.inst (buildStmt fc none .ctl g.st).1, { g with st := (buildStmt fc none .ctl g.st).2 }) := by
+  simp [callFn, accept_ControlNode, bindParams, exec, ↓call_act_smt, hb, evalE, evalA, evalKw, Fr.set, Fr.get, List.lookup,
+    blankRow, St.new, relateV, linkFrom, newSmt, setRef, partnerOk, linkKey, buildStmt]
+
+/-- a bare `return;`: node.expression is None, `self.accept(None)` is None, `xtuml.relate(act_ret, None, 668)` does nothing -/
+theorem return_bare_eq (fc : FCtx) (nd : Node) (g : G) (n : Nat) (hb : BlkOK g.st) (hk : nd.kids.lookup "expression" = none) :
+    callFn (mkEnv fc nd) (n + 20) accept_ReturnNode [.node] [] g
+      = some (.inst (buildStmt fc none (.ret none) g.st).1, { g with st := (buildStmt fc none (.ret none) g.st).2 }) := by
+  simp [callFn, accept_ReturnNode, bindParams, exec, ↓call_act_smt, hb, evalE, evalA, evalKw, Fr.set, Fr.get, List.lookup,
+    blankRow, St.new, relateV, linkFrom, newSmt, setRef, partnerOk, linkKey, buildStmt, mkEnv_nd, mkEnv_fc, hk]
+
+theorem create_nv_eq (fc : FCtx) (nd : Node) (g : G) (n : Nat) (kl : String) (hb : BlkOK g.st)
+    (hk : nd.strs.lookup "key_letter" = some kl) (hc : kl ∈ fc.classes) :
+    callFn (mkEnv fc nd) (n + 20) accept_CreateObjectNoVariableNode [.node] [] g
+      = some (.inst (buildStmt fc none (.createNV kl) g.st).1, { g with st := (buildStmt fc none (.createNV kl) g.st).2 }) := by
+  obtain ⟨⟨pop, scopes, ok⟩, lval, tys⟩ := g
+  simp [callFn, accept_CreateObjectNoVariableNode, bindParams, exec, ↓call_act_smt, hb, evalE, evalA, evalKw, Fr.set, Fr.get,
+    List.lookup, blankRow, St.new, relateV, linkFrom, newSmt, setRef, partnerOk, linkKey, buildStmt, mkEnv_nd, mkEnv_fc, hk, atomCall, hc,
+    setElem, gfail, St.guard, St.fail]
+
+end Pyx.PbShape
